@@ -678,49 +678,42 @@ def run(ctx):
     ctx.say(f"C33 layer A: {a['states']} states, {a['transitions']} transitions, {a['checks']} checks, "
             f"fixpoint={a['fixpoint']} [{time.time() - t0:.1f}s]")
 
-    def fold(mode, seqs, size):
-        """Run one layer in parallel; register the SHORTEST failing history of each key first."""
-        n = chk = swallowed = 0
-        counts = {}
-        divs = []
-        for bn, bchk, bcounts, bsw, bdivs in ctx.pmap(_w_batch, _batches(mode, seqs, size), chunk=1):
-            n += bn
-            chk += bchk
-            swallowed += bsw
-            for k, v in bcounts.items():
-                counts[k] = counts.get(k, 0) + v
-            divs += bdivs
-        for at, seq, div in sorted(divs, key=lambda d: (d[0], d[1])):
-            ctx.violation(div["key"], div["what"],
-                          {"mode": "with" if mode[0] == "W" else "calls", "seq": list(seq)})
-        return n, chk, counts, swallowed
-
     gate_seqs = sequences(GATE, L_gate)
-    n_t1, _, _, sw1 = fold("T1", gate_seqs, 256)
     full_alpha = GATE + tuple("k:" + p for p in TREE_PROGS)
     full_seqs = sequences(full_alpha, L_full)
-    n_t2, chk_t2, counts_t2, sw2 = fold("T2", full_seqs, 64)
-    ctx.say(f"C33 layer T: {n_t1} gate-only sequences of length {L_gate}, {n_t2} interleaved sequences of "
-            f"length {L_full} with {chk_t2} pipeline checks [{time.time() - t0:.1f}s]")
-
-    # layer W
     w1_items = []
     for n in range(1, L_gate + 1):
         w1_items += [s for s in sequences(GATE, n) if balanced(s)]
-    # sanity of the generator of real `with` code: a transcription of the statement run
-    # through the same generated source must agree with the stack model everywhere
-    for s in w1_items:
-        if len(s) <= 6 and replay_with(s, X=_FakeGate()) is not None:
-            raise RuntimeError(f"harness: generated `with` source is wrong for {s}:\n{gen_with_source(s)}")
-    fold("W1", w1_items, 256)
     w2_items = []
     for n in range(1, L_full + 1):
         w2_items += [s for s in sequences(full_alpha, n) if balanced(s) and any(e.startswith("k:") for e in s)
                      and any(e[0] in "wx" for e in s)]
-    for s in w2_items:
-        if len(s) <= 5 and replay_with(s, X=_FakeGate()) is not None:
+    # sanity of the generator of real `with` code: a transcription of the statement run
+    # through the same generated source must agree with the stack model everywhere
+    for s in w1_items + w2_items:
+        if len(s) <= 6 and replay_with(s, X=_FakeGate()) is not None:
             raise RuntimeError(f"harness: generated `with` source is wrong for {s}:\n{gen_with_source(s)}")
-    fold("W2", w2_items, 64)
+
+    # one fork pool for all four layers (T1, T2, W1, W2)
+    batches = (_batches("T1", gate_seqs, 256) + _batches("T2", full_seqs, 64)
+               + _batches("W1", w1_items, 256) + _batches("W2", w2_items, 64))
+    agg = {m: {"n": 0, "chk": 0, "sw": 0, "counts": {}, "divs": []} for m in ("T1", "T2", "W1", "W2")}
+    for (mode, _), (bn, bchk, bcounts, bsw, bdivs) in zip(batches, ctx.pmap(_w_batch, batches, chunk=1, recycle=100000)):
+        g = agg[mode]
+        g["n"] += bn
+        g["chk"] += bchk
+        g["sw"] += bsw
+        for k, v in bcounts.items():
+            g["counts"][k] = g["counts"].get(k, 0) + v
+        g["divs"] += bdivs
+    for mode in ("T1", "T2", "W1", "W2"):      # the SHORTEST failing history of each key first
+        for at, seq, div in sorted(agg[mode]["divs"], key=lambda d: (d[0], d[1])):
+            ctx.violation(div["key"], div["what"],
+                          {"mode": "with" if mode[0] == "W" else "calls", "seq": list(seq)})
+    n_t1, sw1 = agg["T1"]["n"], agg["T1"]["sw"]
+    n_t2, chk_t2, counts_t2, sw2 = agg["T2"]["n"], agg["T2"]["chk"], agg["T2"]["counts"], agg["T2"]["sw"]
+    ctx.say(f"C33 layer T: {n_t1} gate-only sequences of length {L_gate}, {n_t2} interleaved sequences of "
+            f"length {L_full} with {chk_t2} pipeline checks")
     exc_paths = sum("xe" in s for s in w1_items) + sum("xe" in s for s in w2_items)
     ctx.say(f"C33 layer W: {len(w1_items)} + {len(w2_items)} balanced sequences as real `with` code [{time.time() - t0:.1f}s]")
 
